@@ -327,6 +327,10 @@ pub struct Tr<'a> {
     type_subst: HashMap<String, Ty>,
     /// the function takes `&mut self`: it returns `(result, self)`
     mut_self: bool,
+    /// functions that are parameters of the definition (`abstract=`): name -> (parameter types, return type)
+    abstract_fns: HashMap<String, (Vec<Ty>, Ty)>,
+    /// associated constants of a generic parameter (`T::MAX_VAL`) used by the body: parameters of the definition
+    abstract_consts: Vec<(String, String)>,
 }
 
 fn ind(lines: Vec<String>, n: usize) -> Vec<String> {
